@@ -34,8 +34,7 @@ func buildPool(p *Pool) *poolObjs {
 	return o
 }
 
-// render gives a canonical text of every shared object; the immutability
-// oracle compares it with the rendering taken right after construction.
+// render gives a canonical text of every shared object (for reports).
 func (o *poolObjs) render() string {
 	var b strings.Builder
 	for _, i := range o.ints {
@@ -54,6 +53,63 @@ func (o *poolObjs) render() string {
 		fmt.Fprintf(&b, "%x;", y)
 	}
 	return b.String()
+}
+
+func hashWords(h uint64, i *big.Int) uint64 {
+	h ^= uint64(i.Sign() + 2)
+	h *= fnvPrime
+	for _, w := range i.Bits() {
+		h ^= uint64(w)
+		h *= fnvPrime
+	}
+	return h
+}
+
+// hash digests every shared object; the immutability oracle compares it
+// with the digest taken right after construction (cheap enough to run at
+// every context switch).
+func (o *poolObjs) hash() uint64 {
+	h := uint64(fnvOff)
+	for _, i := range o.ints {
+		h = hashWords(h, i)
+	}
+	for _, r := range o.rats {
+		h = hashWords(h, r.Num())
+		h = hashWords(h, r.Denom())
+	}
+	for _, f := range o.floats {
+		var m big.Float
+		e := f.MantExp(&m)
+		h ^= uint64(int64(e))
+		h *= fnvPrime
+		h ^= uint64(f.Prec())<<8 ^ uint64(f.Mode()) ^ uint64(f.Acc()+2)<<40
+		h *= fnvPrime
+		if f.Signbit() {
+			h ^= 1
+			h *= fnvPrime
+		}
+		if !f.IsInf() {
+			x, _ := m.SetMode(big.ToZero).SetPrec(f.Prec()).Float64()
+			h ^= uint64(int64(x * (1 << 53)))
+			h *= fnvPrime
+			// full mantissa through the exact integer when it is small enough
+			if f.Prec() <= 4096 {
+				var mi big.Int
+				mm := new(big.Float).SetPrec(f.Prec()).SetMantExp(&m, int(f.Prec()))
+				mm.Int(&mi)
+				h = hashWords(h, &mi)
+			}
+		}
+	}
+	for _, y := range o.bytes {
+		for _, c := range y {
+			h ^= uint64(c)
+			h *= fnvPrime
+		}
+		h ^= uint64(len(y))
+		h *= fnvPrime
+	}
+	return h
 }
 
 // privObjs are the long-lived objects one task owns.
